@@ -210,6 +210,20 @@ class normalised_export_fixed_point:
         return e2 == [] and kp.dumps(d1) == kp.dumps(d2)
 
 
+@contract(None, props=['C03'], bounded='one recorded score (known finding of C03)')
+class invisible_barline_dropped:
+    """Known finding (C03): a barline carrying the invisible mark ('=2-') is flagged hidden by the listener and Exporter.append_row
+    writes a null token in its place, so the whole line disappears from the default export -- the barline loses more than its number.
+    (An explicit gate in the exporter: possibly intended; recorded because the property reads 'barlines keep their type and lose only
+    the measure number ... nothing is dropped'.)"""
+    def inputs(g):
+        return {'text': g.choice('text', ['**kern\n*clefG2\n=1\n4c\n=2-\n4d\n==\n*-\n'])}
+
+    def post_barline_kept(text):
+        doc, errs = kp.loads(text)
+        return lines_of(kp.dumps(doc)) == ['**kern', '*clefG2', '=', '4c', '=-', '4d', '==', '*-']
+
+
 @contract(None, props=['C01'], bounded='one recorded score (known finding of C01)')
 class extended_round_trip_combining_signifiers:
     """Known finding (C01): two signifiers that the extended encoding keeps apart can merge into one when the separators are removed
@@ -500,7 +514,7 @@ def rng_measures(g):
 class token_queries_agree:
     def inputs(g):
         score, rng = doc_inputs(g, hidden_bars=True)
-        cats = rng.sample(list(TokenCategory), rng.choice([1, 1, 2, 5]))
+        cats = None if rng.random() < 0.3 else rng.sample(list(TokenCategory), rng.choice([1, 1, 2, 5, 12]))
         return {'score': score, 'cats': cats, 'key': rng.choice(['COM', 'OTL', 'ENC', 'nokey'])}
 
     def post_listing_in_spine_path_order(score):
@@ -542,7 +556,9 @@ class token_queries_agree:
                 firsts.append(t)
         uniq = doc.get_unique_tokens(filter_by_categories=cats)
         freq = doc.frequencies(cats)
-        return (len(uniq) == len(firsts) and all(a is b for a, b in zip(uniq, firsts))
+        per_text = all(freq[t.encoding]['occurrences'] == sum(1 for u in allt if u.encoding == t.encoding)
+                       and freq[t.encoding]['category'] == t.category.name for t in firsts)
+        return (len(uniq) == len(firsts) and all(a is b for a, b in zip(uniq, firsts)) and per_text and list(freq) == [t.encoding for t in firsts]
                 and sum(v['occurrences'] for v in freq.values()) == len(allt) and set(freq) == seen
                 and doc.get_all_tokens_encodings(cats) == [t.encoding for t in allt]
                 and doc.get_unique_token_encodings(cats) == [t.encoding for t in firsts])
